@@ -16,7 +16,7 @@ INVARIANTS %(invs)s
 
 CONCRETE = {"dq": ['"'], "sq": ["'"], "bs": ["\\"], "pct": ["%"], "lb": ["{"], "rb": ["}"], "nl": ["\n"],
             "na": ["é", "漢", "😀", "ß"], "n": ["n"], "v": ["v"], "q": ["b", "t", "u", "x", "z", "Q", "d", "s", "0"],
-            "sp": [" "], "cc": ["\x07", "\x1b", "\x0b", "\x01", "\x7f", "\x08"], "ap": ["\U000e0067", "\U0001f3f4", "\U000e007f"], "P1": ["{{ex.p1}}"], "P2": ["{{ ex.p2 }}"], "V1": ["VAL1"], "V2": ["VAL2"], "N0": ["null"]}
+            "sp": [" "], "cc": ["\x07", "\x1b", "\x0b", "\x01", "\x7f", "\x08"], "ap": ["\U000e0067", "\U0001f3f4", "\U000e007f"], "P1": ["{{ex.p1}}"], "P2": ["{{ core.name }}"], "V1": ["VAL1"], "V2": ["VAL2"], "N0": ["null"]}
 
 
 def concretize(symbols, choice):
